@@ -32,7 +32,7 @@ def run_common(tier, pid, mode):
     n = {"quick": 60, "thorough": 800}[tier]
     vf.run_harness(binpath, ["target", "gen", "--seed", vf.seed(), "--tier", tier, "--n", n, mode], stdout_path=cases)
     nrec, nhist, bad = vf.exec_and_validate(chk, binpath, "target", "TV_Target", cases, jvms=10, what="scene")
-    if mode == "c06":
+    if mode in ("c06", "c07"):
         # one render call of more than 2^16 triangles (most of them cover no pixel centre)
         big = os.path.join(d, "bigcall.ndjson")
         vf.run_harness(binpath, ["target", "gen", "--seed", vf.seed(), "--tier", tier, "bigcall"], stdout_path=big)
